@@ -17,7 +17,7 @@ from ..core import outcome
 
 RULE = ("one case = (program of array operations from a small ragged list = TLC state of MC_C07, encoding) replayed on real encoded arrays; "
         "non-trivial = the program has a selection or assignment acting on the result of an earlier selection/copy; distinct by (program, encoding)")
-ALL_OPS = ["rows", "cols", "concat", "copy", "row", "col", "eq", "streq", "streq2", "decode", "ravel", "setrow", "setmask"]
+ALL_OPS = ["rows", "cols", "concat", "copy", "row", "col", "eq", "streq", "streq2", "rslice", "decode", "ravel", "setrow", "setmask"]
 
 
 def _encodings():
@@ -160,6 +160,10 @@ def check_vector(v):
                     return [bool(x) for x in bnp.str_equal(t, txt(op["s"])).tolist()]
                 if name == "streq2":
                     return [bool(x) for x in np.atleast_1d(bnp.str_equal(t, pool[op["u"] - 1])).tolist()]
+                if name == "rslice":
+                    out = bnp.ragged_slice(t, np.array(op["starts"], dtype=int), np.array(op["ends"], dtype=int))
+                    return {"rows": [str(x) for x in out.tolist()], "encoding_kept": out.encoding == t.encoding,
+                            "flat": "".join(t.tolist())}
                 if name == "decode":
                     from bionumpy.string_array import string_array
                     return [[str(x) for x in t.encoding.decode(t).tolist()], [str(x) for x in string_array(t).tolist()]]
@@ -198,6 +202,14 @@ def check_vector(v):
             if last[1] != obs["val"]:
                 bad.append({"what": "str_equal differs from comparing the rows as strings", "tags": dict(tags, kind="value"), "vector": v, "case": case,
                             "expected": obs["val"], "observed": last[1]})
+        elif obs["kind"] == "rows" and prog[-1]["op"] == "rslice":
+            want = [txt(r) for r in obs["val"]]
+            got = last[1]
+            if got["rows"] != want or not got["encoding_kept"]:
+                # the reading the code is known to make: starts/ends taken as positions in the flat text of all rows
+                flat_reading = [got["flat"][a:b] for a, b in zip(prog[-1]["starts"], prog[-1]["ends"])]
+                bad.append({"what": "ragged_slice does not slice every row from its own start", "tags": dict(tags, kind="value", reads_flat_text=(got["rows"] == flat_reading and got["encoding_kept"])),
+                            "vector": v, "case": case, "expected": want, "observed": got["rows"]})
         elif obs["kind"] == "rows":
             want = [txt(r) for r in obs["val"]]
             if last[1] != [want, want]:
